@@ -45,15 +45,17 @@ structure SubjConf where
 deriving Repr, DecidableEq, Inhabited
 
 structure Subject where
-  nameId : Option String
+  nameId : Option String                   -- the identifier, carried as `<saml:NameID>` or inside `<saml:EncryptedID>`
   confs : List SubjConf
+  idSealed : Bool := false                 -- the identifier is carried as `<saml:EncryptedID>` (there is no NameID element)
+  idOpens : Bool := true                   -- … and one of the provider's own decryption keys opens it
 deriving Repr, DecidableEq, Inhabited
 
 structure Conditions where
   nb : Option Int := none
   nooa : Option Int := none
   audiences : List (List String) := []     -- one list per AudienceRestriction
-  extraKnown : List Bool := []             -- extra <Condition>s: is its xsi:type in extension_schema?
+  extra : List (Option String) := []       -- extension <Condition> elements: the value of xsi:type (`none` = no xsi:type)
 deriving Repr, DecidableEq, Inhabited
 
 structure AuthnStmt where
@@ -91,7 +93,13 @@ structure Cfg where
   skew : Nat := 0                    -- accepted_time_diff (unset = 0)
   entityId : String := ""
   returnAddrs : List String := []    -- own ACS endpoints for the binding used
+  extSchemas : List String := []     -- `extension_schema` handed to the AuthnResponse constructor (namespace keys)
 deriving Repr, DecidableEq, Inhabited
+
+/-- `Entity._parse_response` (every `Saml2Client.parse_*_response`) and the factory `authn_response()` construct the
+    `AuthnResponse` WITHOUT `extension_schema`: whatever `extension_schemas` the configuration names, the set applied
+    is empty.  Only `response_factory()` hands the configuration's set on. -/
+def noExt (cfg : Cfg) : Cfg := { cfg with extSchemas := [] }
 
 structure Env where
   now : Int := 0
@@ -114,6 +122,7 @@ inductive Err where
   | noSubject | noAttesting | unknownMethod | noScData | noRecipient | noValidSc | bearerUnknownIrt | cameFrom
   | eitherUnsigned | unknownBinding
   | timeForm        -- a timestamp attribute is not in the UTC form the library reads (Model/SpLex.lean)
+  | idUndecryptable -- the EncryptedID of the subject is not opened by any of the provider's keys (DecryptError)
 deriving Repr, DecidableEq, Inhabited
 
 /-- Does the pass-2 handler (`except SignatureError`) catch this error? -/
@@ -219,17 +228,24 @@ def authnStatementOk (cfg : Cfg) (env : Env) (st : St) (a : Assertion) : Except 
     | none => .ok st
   | _ => .error .authnStmtCount
 
+/-- An extension `<Condition>` is understood iff its `xsi:type` value is a key of `extension_schema`
+    (the code compares the attribute value as written with the schema modules' namespaces); without `xsi:type`
+    it never is ('Missing xsi:type specification'). -/
+def extKnown (cfg : Cfg) : Option String → Bool
+  | some t => cfg.extSchemas.contains t
+  | none => false
+
 /-- `condition_ok(lax=False)`. -/
 def conditionOk (cfg : Cfg) (env : Env) (st : St) (a : Assertion) : Except Err St :=
   match a.conditions with
   | none => .ok st
   | some c =>
-    if c.nb.isNone && c.nooa.isNone && c.audiences.isEmpty && c.extraKnown.isEmpty then .ok st  -- `not conditions.keyswv()`
+    if c.nb.isNone && c.nooa.isNone && c.audiences.isEmpty && c.extra.isEmpty then .ok st  -- `not conditions.keyswv()`
     else if c.nb.isSome && c.nooa.isSome && !laterThan c.nooa c.nb then .error .conditionNotOk
     else if optExpired env.now cfg.skew c.nooa then .error .expired
     else if optPremature env.now cfg.skew c.nb then .error .premature
     else if !forMe cfg.entityId c.audiences then .error .audience
-    else if c.extraKnown.any (fun k => !k) then .error .unknownCondition
+    else if c.extra.any (fun t => !extKnown cfg t) then .error .unknownCondition
     else .ok { st with notOnOrAfter := c.nooa.getD st.notOnOrAfter }
 
 /-- `verify_attesting_entity`. -/
@@ -294,6 +310,11 @@ def confirmLoop (cfg : Cfg) (env : Env) : St → List SubjConf → Nat → Excep
         | some r => if r != "" && recipientOk cfg env r then confirmLoop cfg env st' rest (n + 1) else .error .noRecipient
         | none => .error .noRecipient
 
+/-- The identifier `get_subject` stores: the NameID when there is one, else the NameID inside the EncryptedID
+    (decrypted with the provider's own keys; `DecryptError` when none opens it), else nothing. -/
+def subjectId (s : Subject) : Except Err (Option String) :=
+  if s.idSealed && !s.idOpens then .error .idUndecryptable else .ok s.nameId
+
 /-- `get_subject`. -/
 def getSubject (cfg : Cfg) (env : Env) (st : St) (a : Assertion) : Except Err St :=
   match a.subject with
@@ -305,7 +326,11 @@ def getSubject (cfg : Cfg) (env : Env) (st : St) (a : Assertion) : Except Err St
       | .error e => .error e
       | .ok (st', n) =>
         if n == 0 then .error .noValidSc
-        else .ok (if s.nameId.isSome then { st' with nameId := s.nameId } else st')
+        else
+          match subjectId s with
+          | .error e => .error e
+          | .ok none => .ok st'
+          | .ok (some n) => .ok { st' with nameId := some n }
 
 /-- `_assertion(assertion, verified)`; `requireSig` is the current value of `require_signature`. -/
 def checkAssertion (cfg : Cfg) (env : Env) (requireSig verified : Bool) (st : St) (a : Assertion) : Except Err St :=
